@@ -174,10 +174,10 @@ PROPS.update({
         "level_note": "counted as proof: sort unit. bounded: enum:quantiles (bulk slice j vs single call, request lists with repeats/empty), enum:select_many, enum:means (per-axis forms vs per-lane whole-array routine). Not decided: central_moments(p)[k] vs central_moment(k) bit for bit and the float per-axis variance (float closure chains, powi)",
         "technique": "Verus contracts shared by the bulk and single selection routines; bounded enumeration for the quantile / per-axis glue",
         "design_ref": "DESIGN.md 4 (C18)",
-        "verus": [("sort", "N")],
+        "verus": [("sort", "N"), ("moments", "N")],
         "enum": [{"name": "select_many", "abort_props": ["C02"]}, {"name": "quantiles", "abort_props": ["C01"]}, {"name": "means", "abort_props": ["C06"]}],
         "assumptions": [A_ND, A_RNG, A_ORD, A_STD, A_VERUS, A_EXTRACT, A_ENUM, BOUNDED_NOTE],
-        "not_decided": ["central_moments(p)[k] == central_moment(k) and per-axis weighted variance / standard deviation vs the whole-array routine: decided only bounded (bit-for-bit comparison on sampled f64 arrays, orders 0..10, ddof in {0, .5, 1}), not proved"],
+        "not_decided": ["central_moments(p)[k] == central_moment(k) and per-axis weighted variance vs the whole-array routine: proved in exact arithmetic only (unit moments, assumption A-REAL: both sides equal the same formula); bit-for-bit equality of the floating-point results is bounded (sampled f64 arrays, orders 0..10, ddof in {0, .5, 1})"],
     },
     "C03": {
         "level": "proof",
